@@ -498,6 +498,7 @@ type c18ROpts struct {
 	gran                    string
 	title                   string
 	nodeCount               int
+	mean                    bool   // -mean: the first sample column is the divisor
 	unit                    string // explicit -unit (coarse units make costs truncate to 0); "" = minimum
 }
 
@@ -524,6 +525,9 @@ func c18Report(p *profile.Profile, format int, o c18ROpts) *report.Report {
 		ro.NodeCount = o.nodeCount
 		ro.NodeFraction = 0.05
 		ro.EdgeFraction = 0.01
+	}
+	if o.mean {
+		ro.SampleMeanDivisor = func(v []int64) int64 { return v[0] }
 	}
 	return report.NewDefault(p, ro)
 }
@@ -612,6 +616,7 @@ func runC18(c *Ctx) {
 
 	c18ExtCases(c, dotCase)
 	c18E2ECases(c, dotCase)
+	c18UnitCases(c, dotCase)
 	c18TrimCases(c)
 
 	c18HTMLCases(c)
